@@ -1,5 +1,6 @@
 import XModel.ManagerFrame
 import XModel.ManagerC13
+import XModel.ManagerC13Fn
 import XProofs.Properties.C01
 /-!
 # C13 — generated setter functions are equivalent to assigning through the manager
@@ -100,5 +101,35 @@ example : (execGen id base twoArgs).2 = none ∧ (assignAll id base twoArgs).2 =
 example : get (execGen id base twoArgs).1.store de = .ok (.int 45) ∧
     get (assignAll id base twoArgs).1.store de = .ok (.int 45) := ⟨rfl, rfl⟩
 end example_
+
+/-- **generated setter vs assignments, with function tasks in the manager**: for ANY list of arguments (plain existing
+    locations away from every item target, `GenScopeF`), any legal order of the generated listing and any legal
+    schedules of the manager's own propagations — triggered sets may overlap arbitrarily, a shared dependant runs once
+    in the generated function and once per argument in the manager — both end with the same container tree, definitions
+    and indices -/
+theorem C13_equivalent_function_tasks (schedG schedS : Sched) (s : MState) (args : List (Path × Val)) (hi : MInv s)
+    (hc : ConsistentF s) (gs : GenScopeF s args)
+    (hvsG : ValidSched (gOf s.idx) (findTaskids s.idx (argDeps args)) (schedG (findTaskids s.idx (argDeps args))))
+    (hvsS : ∀ a ∈ args, ValidSched (gOf s.idx) (findTaskids s.idx (chainR a.1)) (schedS (findTaskids s.idx (chainR a.1))))
+    (sG : MState) (hG : execGen schedG s args = (sG, none))
+    (sS : MState) (hS : assignAll schedS s args = (sS, none)) :
+    sG.store = sS.store ∧ sG.defs = sS.defs ∧ sG.idx = sS.idx :=
+  execGen_equiv_assignAllF schedG schedS s args hi hc gs hvsG hvsS sG hG sS hS
+
+/-- the same with every hypothesis a decidable test -/
+theorem C13_equivalent_function_tasks_decided (schedG schedS : Sched) (s : MState) (args : List (Path × Val))
+    (hi : MInv s) (hsc : genScopeFB s args = true) (hc : consistentFB s = true)
+    (hvG : validSchedule s.idx (argDeps args) (schedG (findTaskids s.idx (argDeps args))) = true)
+    (hvS : argSchedsB schedS s args = true)
+    (sG : MState) (hG : execGen schedG s args = (sG, none))
+    (sS : MState) (hS : assignAll schedS s args = (sS, none)) :
+    sG.store = sS.store ∧ sG.defs = sS.defs ∧ sG.idx = sS.idx :=
+  execGen_equiv_assignAllF_decided schedG schedS s args hi hsc hc hvG hvS sG hG sS hS
+
+/-- one argument: the generated function IS the manager's assignment up to the schedule, and with function tasks the
+    second completes whenever the first does -/
+theorem C13_single_argument_function_tasks (sched : Sched) (s : MState) (p : Path) (v : Val) :
+    execGen sched s [(p, v)] = writeAndRun sched s p v :=
+  execGen_single sched s p v
 
 end Properties.C13
